@@ -773,7 +773,11 @@ class Operator(object):
             ``self + other <==> (x --> self(x) + other(x))``
         """
         if other in self.range:
-            return OperatorVectorSum(self, other)
+            if isinstance(other, LinearSpaceElement):
+                # Own the vector, as `__mul__` and `__rmul__` do
+                return OperatorVectorSum(self, other.copy())
+            else:
+                return OperatorVectorSum(self, other)
         elif other in self.range.field:
             constant_vector = other * self.range.one()
             return OperatorVectorSum(self, constant_vector)
